@@ -122,7 +122,24 @@ def run_op(ctx, i):
             ok, TM = ctx.guarded("matrix.operator", lambda: _np(T.transform_mapping_matrix(mapping_matrix=M.copy())))
             if ok:
                 ctx.check(relclose(TM, A @ M), "matrix.operator", matrix_kind=mk, got=TM, expected=A @ M, mapping_matrix=M, **tag)
-        vis_obj = aa.Visibilities(visibilities=V.copy())
+        # the visibilities as a user may hold them: a fresh contiguous vector, one channel column of a [visibilities, channels] cube,
+        # a strided / reversed view, single precision
+        form = ("contiguous", "cube_column", "strided_view", "reversed_view", "complex64")[i % 5]
+        if form == "cube_column":
+            cube = np.stack([V + 1.0, V, V - 2.0j], axis=1)
+            Vin = cube[:, 1]
+        elif form == "strided_view":
+            Vin = np.stack([V, V * 0.5], axis=1).ravel()[::2]
+        elif form == "reversed_view":
+            Vin = V[::-1].copy()[::-1]
+        elif form == "complex64":
+            V = V.astype(np.complex64).astype(np.complex128)       # values exactly representable in single precision
+            Vin = V.astype(np.complex64)
+        else:
+            Vin = V.copy()
+        ctx.classes["visibilities_given_as:" + form] += 1
+        tag = dict(tag, visibilities_given_as=form)
+        vis_obj = aa.Visibilities(visibilities=Vin)
         ok, im = ctx.guarded("adjoint", lambda: T.image_from(visibilities=vis_obj))
         if ok:
             exp = np.real(A.conj().T @ V)
